@@ -1,4 +1,5 @@
 import ShootVerif.Model.Transfer
+import ShootVerif.Model.RestCall
 /-
 Model of `shoot rest` (internal/restclient): the directive recognisers of cook.go (hand-written for
 the five regular expressions, on `List Char`), the parameter classification of paramhandler.go /
@@ -603,17 +604,105 @@ def planOf (hs : List (String × String)) (name : String)
 
 def cookedOk (m : Method) : Bool := match cookMethod m with | .ok .. => true | _ => false
 
-/-- the whole generator on one interface -/
-def generate (i : Iface) : GenRes :=
-  let hs := setAll [] (strKVs (parseHeaders i.headersDoc))
-  match collect (i.methods.map cookMethod) with
+/-- cookClient + template once the interface-level headers are known: every method is cooked from its own doc comment -/
+def generateH (hs : List (String × String)) (ms : List Method) : GenRes :=
+  match collect (ms.map cookMethod) with
   | none => .fatal
   | some cooked =>
-    let names := (i.methods.filter cookedOk).map (·.name)
+    let names := (ms.filter cookedOk).map (·.name)
     let plans := (cooked.zip names).map (fun (x, name) => planOf hs name x.1 x.2.1 x.2.2)
     -- Q5: range over a pointer to a map; a skipped method leaves the interface unimplemented
     let bad := plans.any (fun p => !p.dict.isEmpty && p.dictIsPtr)
-    .ok plans (!bad && plans.length == i.methods.length)
+    .ok plans (!bad && plans.length == ms.length)
+
+/-- the whole generator on one interface -/
+def generate (i : Iface) : GenRes :=
+  generateH (setAll [] (strKVs (parseHeaders i.headersDoc))) i.methods
+
+/-! ## the interface as go/ast presents it (`iface.Methods.List`) and the glue of cookClient around the methods
+
+cook.go:63-176 walks the entries of the interface type in declaration order: an entry without names is an embedded
+interface (shoot.RestClient[T] — or any other): if it has a doc comment, the pairs of its `headers=` directive are written
+into the header table of every verb; an entry with a name is a method: without a doc comment, or with one in which no
+request directive is found, it is skipped with a warning; else its parameters are walked group by group and name by
+name (`for _, param := range ftype.Params.List { for _, name := range param.Names {…} }`: a group `a, b T` is two
+parameters, an unnamed parameter is none) and its result list is checked (cook.go:136-171). The template reads the
+header tables only after the whole walk. -/
+
+/-- one entry of a parameter list: `a, b T` -/
+structure ParamGroup where
+  names : List String      -- [] = an unnamed parameter
+  kind : PKind
+  ptr : Bool
+  deriving Repr, DecidableEq, Inhabited
+
+/-- a result type as the checks of cook.go:148-170 see it -/
+inductive ResType where
+  | star | slice | map      -- `*T`, `[]T`, `map[K]V`
+  | httpResp                -- prints as `*http.Response`
+  | error                   -- prints as `error`
+  | other                   -- anything else (`T`, `chan T`, …)
+  deriving Repr, DecidableEq, Inhabited
+
+/-- one entry of a result list: `(a, b T)` has two names, `T` none -/
+structure ResGroup where
+  nnames : Nat
+  ty : ResType
+  deriving Repr, DecidableEq, Inhabited
+
+inductive Entry where
+  | embed (doc : Option (List Char))
+  | method (name : String) (doc : Option (List Char)) (params : List ParamGroup) (results : List ResGroup)
+  deriving Repr, DecidableEq, Inhabited
+
+def flattenParams (gs : List ParamGroup) : List Param :=
+  gs.flatMap (fun g => g.names.map (fun n => ⟨n, g.kind, g.ptr⟩))
+
+/-- cook.go:136-171: `n := len(Results.List)` (entries, not values); 2 ≤ n ≤ 3; the second to last prints as
+    `*http.Response`, the last as `error`; with three the first has no name and is `*T` (IsPtr), `[]T` or `map[K]V`.
+    `none` = one of the Fatalf calls -/
+def resultShape : List ResGroup → Option RestCall.Shape
+  | [r1, r2] => if r1.ty = .httpResp ∧ r2.ty = .error then some .none else none
+  | [r0, r1, r2] =>
+    if r1.ty = .httpResp ∧ r2.ty = .error ∧ r0.nnames = 0 then
+      match r0.ty with
+      | .star | .httpResp => some .ptr
+      | .slice => some .slice
+      | .map => some .map
+      | _ => none
+    else none
+  | _ => none
+
+/-- the header pairs written into the per-verb tables, in the order the embedded entries are met -/
+def astHeaders (es : List Entry) : List (String × String) :=
+  es.flatMap (fun e => match e with
+    | .embed (some d) => strKVs (parseHeaders d)
+    | _ => [])
+
+/-- the methods as handleExpr sees them (a missing doc comment reads as the empty text: no directive) -/
+def astMethods (es : List Entry) : List Method :=
+  es.filterMap (fun e => match e with
+    | .method name doc ps _ => some ⟨name, doc.getD [], flattenParams ps⟩
+    | .embed _ => none)
+
+/-- a method whose directives were read and whose parameters were cooked but whose result list is rejected -/
+def badResults (es : List Entry) : Bool :=
+  es.any (fun e => match e with
+    | .method name (some d) ps rs => cookedOk ⟨name, d, flattenParams ps⟩ && (resultShape rs).isNone
+    | _ => false)
+
+/-- the result shape of every generated method, in order -/
+def astShapes (es : List Entry) : List (String × RestCall.Shape) :=
+  es.filterMap (fun e => match e with
+    | .method name (some d) ps rs =>
+      if cookedOk ⟨name, d, flattenParams ps⟩ then (resultShape rs).map (fun s => (name, s)) else none
+    | _ => none)
+
+/-- cookClient + template on the entries of the interface type -/
+def generateAst (es : List Entry) : GenRes :=
+  match generateH (setAll [] (astHeaders es)) (astMethods es) with
+  | .fatal => .fatal
+  | .ok plans b => if badResults es then .fatal else .ok plans b
 
 /-! ## the emitted method body up to `c.client.Do(req_)` -/
 
